@@ -1,34 +1,16 @@
 /-
-  Props/C15_v2e.lean — property C15, v2 async_mutex, part e: the model of the REPAIRED
-  completion_forwarder (`fwdStop := false`: the rescheduling receiver answers get_stop_token with
-  unstoppable_token).  With the repair the FULL property holds — the end-state clause (every started
-  waiter completes exactly once, lock not leaked) without the `noHazard` guard — in the scenarios
-  where the code as it stands leaks the lock (C15_v2a.v2_lock_leak_witness).
-  ONLY property theorems; model: Proto/MutexV2.lean.
+  Props/C15_v2e.lean — property C15, v2 async_mutex, part e: unlock (pop_front) races with the
+  cancellation (try_remove) of the first of two queued waiters, deferred scheduler.
+  ONLY property theorems; model: Proto/MutexV2.lean; `safeFull` is spelled out in C15_v2a.
 -/
 import UnifexModel.Proto.MutexV2
 
 namespace Unifex.Props.C15
 open Unifex.Core Unifex.Proto.MutexV2
 
-/-- `safeFull` = `safe` plus the unguarded end-state clause -/
-theorem v2_safeFull_spelled (cfg : Config) (s : St) (h : safeFull cfg s = true) :
-    safe cfg s = true ∧ (final cfg s = true → endOk s = true) := by
-  unfold safeFull at h
-  simp only [Bool.and_eq_true, Bool.or_eq_true, Bool.not_eq_eq_eq_not, Bool.not_true] at h
-  refine ⟨h.1, fun hf => ?_⟩
-  rcases h.2 with h2 | h2
-  · simp [hf] at h2
-  · exact h2
-
-/-- the sequential reproducer of the leak, repaired: no leak, waiter 1 is served -/
-theorem v2_leak_seq_fixed_safe :
-    ∀ s, Reach (sys { cfgLeakSeq with fwdStop := false }) s → safeFull { cfgLeakSeq with fwdStop := false } s = true :=
-  safe_of_check _ { coded with M := 101, W := 264 } 400 _ (by decide +kernel)
-
-/-- uncontended start() + stop request at any time (inline scheduler), repaired -/
-theorem v2_inline_stop_fixed_safe :
-    ∀ s, Reach (sys { cfgInlineStop with fwdStop := false }) s → safeFull { cfgInlineStop with fwdStop := false } s = true :=
-  safe_of_check _ { coded with M := 277, W := 192 } 400 _ (by decide +kernel)
+/-- unconditional: exactly one of pop_front / try_remove gets the first waiter; it ends with value
+    (owning, then unlocking) or with done (never owning); the second waiter is always served -/
+theorem v2_cancel_first_safe : ∀ s, Reach (sys cfgCancelFirst) s → safeFull cfgCancelFirst s = true :=
+  safe_of_check _ { coded with M := 631, W := 272 } 400 _ (by decide +kernel)
 
 end Unifex.Props.C15
